@@ -11,6 +11,8 @@ RULE = ('Histories of 1-32 public mutator calls (random, weighted; plus every 1-
 ASSUMPTIONS = ['invariant checker and reference model in vf/graph.py are correct',
                'a history is cut at the first violation of any history property (state is polluted)']
 
+FUZZ = [('random-general', 4000)]       # thorough tier: coverage-guided sub-run (vf/fuzz.py), runs per process x 16 processes
+
 
 def streams(tier):
     return hist_streams('C01', 'general', 8000, 80000)
